@@ -186,6 +186,12 @@ def harness(ctx, args, cases=None, timeout=1800, race=False, env=None):
         r = subprocess.run([binp] + args, input=inp, capture_output=True, text=True, timeout=timeout, env=e)
     except subprocess.TimeoutExpired:
         raise Infra("harness %s timed out after %ds" % (args, timeout))
+    if r.returncode != 0 and "fatal error: concurrent map" in r.stderr and not (env or {}).get("VERIF_SERIAL") and not race:
+        # the Go runtime aborted the whole process because independent cases (run in parallel) touched one map: no verdict can be
+        # read from that; run the cases one after the other instead, so that each yields its event
+        ctx.log("harness %s aborted by the Go runtime (concurrent map access between independent cases); re-running the cases serially" % " ".join(args))
+        ctx.notes["harness_rerun_serially"] = True
+        return harness(ctx, args, cases, timeout=timeout * 4, race=race, env=dict(env or {}, VERIF_SERIAL="1"))
     if r.returncode != 0:
         raise Infra("harness %s failed rc=%d: %s" % (args, r.returncode, r.stderr[-3000:]))
     events = []
@@ -343,6 +349,7 @@ def report(ctx, events, rejects, nontrivial=None, key=None, rule="", exhaustive=
             if "sess" in ev:        # the event was observed in a session: the replay needs the cases that ran before it
                 pack, pos = ev["sess"]
                 doc["session"] = getattr(ctx, "packs")[pack]["session"][:pos + 1]
+                doc["session_op"] = getattr(ctx, "packs")[pack].get("op", "memflow-session")
             json.dump(doc, f, indent=1)
         print("VIOLATION property=%s replay=%s reason=%s" % (ctx.id, path, reason))
         shown += 1
